@@ -48,6 +48,16 @@ def dotted(node):
     return None
 
 
+def target_name(node):
+    """assignment target: dotted name, or `name[index]` with a plain index as the pseudo variable 'name[]'"""
+    d = dotted(node)
+    if d is not None:
+        return d
+    if isinstance(node, ast.Subscript) and dotted(node.value) and isinstance(node.slice, ast.Name):
+        return dotted(node.value) + "[]"
+    return None
+
+
 def lean_ident(name):
     return re.sub(r"[^A-Za-z0-9_]", "_", name)
 
@@ -219,7 +229,7 @@ class Sym:
             return e
         if t == "bool":
             return f"({e} = true)"
-        raise Untranslatable("truthiness of a non-boolean")
+        raise Untranslatable("truthiness of a non-boolean")   # `if x:` on numbers/arrays/None is never guessed
 
     # ---------------- statements (continuation passing: `run` returns the Lean term for "the rest of the computation")
     def assigned(self, stmts):
@@ -229,14 +239,16 @@ class Sym:
                 if isinstance(n, (ast.Assign, ast.AugAssign, ast.AnnAssign)):
                     for t in (n.targets if isinstance(n, ast.Assign) else [n.target]):
                         for el in (t.elts if isinstance(t, ast.Tuple) else [t]):
-                            d = dotted(el)
+                            d = target_name(el)
                             if d is not None:
                                 names.add(d)
-                            elif isinstance(el, ast.Subscript) and dotted(el.value):
+                            if isinstance(el, ast.Subscript) and dotted(el.value):
                                 names.add(dotted(el.value))
         return names
 
     def finish(self, env):
+        if self.spec.get("fallthrough") == "none":
+            return "none"
         vals = []
         for o in self.outs:
             if o not in env or env[o] is POISON:
@@ -273,7 +285,7 @@ class Sym:
             else:
                 tgt = s.target
                 value = ast.BinOp(left=s.target, op=s.op, right=s.value)
-            name = dotted(tgt)
+            name = target_name(tgt)
             env2 = dict(env)
             if name is None:
                 # writes into containers (x[i] = ..., a, b = ...) poison what they touch
@@ -372,7 +384,7 @@ def find_lambda(tree, path):
     raise Untranslatable(f"{var} not found")
 
 
-LEAN_TYPES = {"num": "α", "str": "String", "table": "List (String × String)"}
+LEAN_TYPES = {"num": "α", "str": "String", "table": "List (String × String)", "bool": "Bool"}
 
 
 def translate(repo, spec):
@@ -381,7 +393,7 @@ def translate(repo, spec):
     sym = Sym(spec)
     ret_types = spec.get("out_types", ["num"] * len(spec["out"]))
     ret = LEAN_TYPES[ret_types[0]] if len(ret_types) == 1 else "(" + " × ".join(LEAN_TYPES[t] for t in ret_types) + ")"
-    zero = {"num": "(n# 0)", "str": '""'}
+    zero = {"num": "(n# 0)", "str": '""', "bool": "false"}
     placeholder = zero[ret_types[0]] if len(ret_types) == 1 else "(" + ", ".join(zero[t] for t in ret_types) + ")"
     if spec.get("option"):
         ret, placeholder = f"Option {ret}", "none"
@@ -416,13 +428,25 @@ def translate(repo, spec):
                             lets += l2
                             for n in tnames - {loopvar}:
                                 env[n] = POISON
-                            env[loopvar] = (lean_ident(loopvar), "num")
-                            if not (isinstance(s.iter, ast.Call) and dotted(s.iter.func) == "enumerate" or dotted(s.iter)):
-                                raise Untranslatable("loop iterable")
+                            for p_, t_ in params:      # loop variables that are inputs of the slice
+                                if p_ in tnames:
+                                    env[p_] = (lean_ident(p_), t_)
                             stmts = list(s.body)
                             break
                 else:
                     raise Untranslatable(f"loop over {loopvar} not found")
+            if spec.get("descend"):
+                for p_, t_ in params:          # the slice's inputs are the values the variables hold when the loop body starts
+                    env[p_] = (lean_ident(p_), t_)
+            if "start_after" in spec:
+                for i, s in enumerate(stmts):
+                    if spec["start_after"] in sym.assigned([s]):
+                        last = i
+                env, l2 = sym.prologue(stmts[:last + 1], env)
+                lets += l2
+                stmts = stmts[last + 1:]
+                for p_, t_ in params:
+                    env[p_] = (lean_ident(p_), t_)
             if "start_at" in spec:
                 for i, s in enumerate(stmts):
                     if spec["start_at"] in sym.assigned([s]):
@@ -477,10 +501,19 @@ TARGETS = [
          out=["self.ns.amplitude", "self.ew.amplitude", "self.degrees_from_north"], out_types=["num", "num", "num"], stop_before="self.meta"),
     dict(group="Sesame", name="clarity_thresholds", file="hvsrpy/sesame.py", func="clarity", start_at="epsilon", stop_before="criteria",
          params=[("mc_peak_frq", "num")], out=["epsilon", "theta"], out_types=["num", "num"]),
+    # frequency-domain window rejection: the accept decision of the inner loop (None = window skipped, its masks are kept) ...
+    dict(group="Fdwra", name="fdwra_keep", file="hvsrpy/window_rejection.py", func="_frequency_domain_window_rejection",
+         descend=["c_iteration", "c_peak"], params=[("c_valid", "bool"), ("c_peak", "num"), ("lower_bound", "num"), ("upper_bound", "num")],
+         out=["hvsr.valid_window_boolean_mask[]", "hvsr.valid_peak_boolean_mask[]"], out_types=["bool", "bool"], option=True),
+    # ... and the stopping rule at the end of an iteration (some c_iteration = return, none = next iteration)
+    dict(group="Fdwra", name="fdwra_stop", file="hvsrpy/window_rejection.py", func="_frequency_domain_window_rejection",
+         descend=["c_iteration"], start_after="d_after",
+         params=[("diff_before", "num"), ("std_fn_before", "num"), ("std_fn_after", "num"), ("d_after", "num"), ("c_iteration", "num")],
+         out=["return"], option=True, fallthrough="none"),
 ]
 
 
-GROUPS = ["Combine", "Azimuth", "Orient", "Windows", "Stats", "Sesame"]
+GROUPS = ["Combine", "Azimuth", "Orient", "Windows", "Stats", "Sesame", "Fdwra"]
 
 
 def emit(repo):
